@@ -1,6 +1,6 @@
 (* LockSpec.v - the processes of C02 are robsd-step -W / -R commands (StepDefs);
    the serialisability specification and its executable oracle. *)
-From Robsd Require Export Lock.LockDefs Step.StepDefs.
+From Robsd Require Export Lock.LockDefs Step.StepDefs Step.StepFault.
 Local Open Scope N_scope.
 
 Inductive op :=
@@ -27,6 +27,12 @@ Definition op_out (o : op) (c : bytes) : N * bytes :=
 
 Definition ops_upd (ops : list op) (p : nat) (c : bytes) : option bytes :=
   match nth_error ops p with Some o => op_upd o c | None => None end.
+
+(* the contents a rewrite by robsd-step passes through (stdio, see StepFault): a file of several stdio
+   blocks reaches the disk in two write(2) calls - the whole blocks from fwrite, the tail from fclose *)
+Definition robsd_mids (p : nat) (c : bytes) : list bytes :=
+  let d := direct_part (length c) in
+  if (Nat.eqb d 0 || Nat.eqb d (length c))%bool then [] else [firstn d c].
 
 (* serial execution of the processes in the order [l]: final content and, per
    process, what it reports *)
@@ -81,7 +87,7 @@ Fixpoint trace (ops : list op) (s : state) (events : list nat) : list (bool * by
   match events with
   | [] => []
   | p :: ev' =>
-      match step (ops_upd ops) s p with
+      match step (ops_upd ops) no_mids s p with
       | Some s' => (true, file s') :: trace ops s' ev'
       | None => (false, file s) :: trace ops s ev'
       end
